@@ -39,7 +39,17 @@ def build_defines():
             break
     if not defs:
         return list(REFERENCE_DEFINES), "fallback(no compile line)"
-    return defs, "make -n -B -C programs zstd"
+    src = "make -n -B -C programs zstd"
+    extra = os.environ.get("ZCHECK_CONFIG", "").split()
+    for e in extra:
+        # thorough tier: a further build configuration; -DNAME=v replaces the shipped value, -UNAME drops it
+        name = e[2:].split("=")[0]
+        defs = [d for d in defs if d[2:].split("=")[0] != name]
+        if e.startswith("-D"):
+            defs.append(e)
+    if extra:
+        src += " + configuration " + " ".join(extra)
+    return defs, src
 
 
 def _inc(*dirs):
